@@ -15,10 +15,10 @@ inductive SinkKind | append | write | concat | floatsum | pick | delete
 structure Site where
   file : String
   fn : String
-  mapType : String
   kind : SinkKind
   sink : String
   sorted : Bool
+  total : Bool
   returned : Bool
   deriving DecidableEq, Repr
 
@@ -26,6 +26,8 @@ structure Site where
 inductive Verdict
   /-- the extractor itself saw the slice reach a sort before any output call -/
   | sortedHere
+  /-- sorted here with a caller-supplied comparator; reviewed to be a total order on the elements -/
+  | customSort (why : String)
   /-- returned/handed on unsorted; every consumer sorts it before printing -/
   | sortedByConsumer (who : String)
   /-- the result does not depend on the order (reason) -/
@@ -44,7 +46,12 @@ structure Reviewed where
 /-- A verdict is consistent with what the extractor measured. -/
 def Reviewed.consistent (r : Reviewed) : Bool :=
   match r.verdict with
-  | .sortedHere => r.site.sorted
+  | .sortedHere => r.site.sorted && r.site.total
+  | .customSort _ => r.site.sorted && !r.site.total
   | _ => !r.site.sorted
+
+/-- A site that needs no review: the collected slice reaches a TOTAL sort before any output, so the
+order in which the map was walked cannot show. -/
+def Site.selfEvident (s : Site) : Bool := decide (s.kind = SinkKind.append) && s.sorted && s.total
 
 end PV.MapRange
